@@ -46,6 +46,18 @@ fn one_mask<CS: BbsCiphersuite>(
     if let Err(e) = proof.proof_verify(pk, dm_arg, idx_arg, header, ph) {
         return rep.fail(ck, "proof-verify-failed", format!("proof_verify of a fresh proof: {:?}", e), cj());
     }
+    // a verifier on a freshly started thread must agree (per-thread state must not matter)
+    if label == "all" || label == "none" || label.ends_with("0b0") || label == "random-half" {
+        let pb0 = proof.to_bytes();
+        let ok = std::thread::scope(|s| {
+            s.spawn(|| PoKSignature::<BBSplus<CS>>::from_bytes(&pb0).map(|x| x.proof_verify(pk, dm_arg, idx_arg, header, ph).is_ok()).unwrap_or(false)).join().unwrap_or(false)
+        });
+        rep.eval(ck, 1);
+        if !ok {
+            return rep.fail(ck, "proof-verify-failed-on-fresh-thread", "a proof that verifies on the proving thread is rejected on a freshly started thread".into(), cj());
+        }
+        rep.class("verified-on-fresh-thread");
+    }
     let b = proof.to_bytes();
     let u = l - idx.len();
     if b.len() != 272 + 32 * u {
